@@ -37,7 +37,22 @@ def _dump(n):
     return ast.dump(n, include_attributes=False)
 
 
-def _well_scoped(d, a):
+def _module_names(tree):
+    import ast
+    import builtins
+    out = set(dir(builtins))
+    for st in tree.body:
+        for n in ast.walk(st) if isinstance(st, (ast.Import, ast.ImportFrom, ast.Assign, ast.AnnAssign, ast.AugAssign)) else []:
+            if isinstance(n, ast.alias):
+                out.add((n.asname or n.name).split('.')[0])
+            elif isinstance(n, ast.Name) and isinstance(n.ctx, ast.Store):
+                out.add(n.id)
+        if isinstance(st, (ast.FunctionDef, ast.ClassDef)):
+            out.add(st.name)
+    return out
+
+
+def _well_scoped(d, a, globals_=frozenset()):
     """Sanity condition on a normalised function: it reads no name that is bound nowhere in it and that the original function did not read either
     (a rewrite that moves an expression out of the scope of a variable it uses would produce exactly that). A normalised form failing it is discarded."""
     import ast
@@ -54,7 +69,7 @@ def _well_scoped(d, a):
         return loads, stores
     dl, ds = names(d)
     al, _ = names(a)
-    if (dl - ds) - al:
+    if (dl - ds) - al - set(globals_):
         return False
     # a comprehension variable must not be read outside its comprehension unless it is also bound outside
     outer = set()
@@ -110,7 +125,7 @@ def absorb(mod, refmod):
                 d = directed(a, r, mod.tree, refmod.tree, cls, rcls)
             except Exception:  # noqa: BLE001
                 d = None
-            if d is not None and _dump(d) != _dump(a) and _well_scoped(d, a):
+            if d is not None and _dump(d) != _dump(a) and _well_scoped(d, a, _module_names(mod.tree)):
                 directed_subst[q] = (a, d, body)
                 res['directed'].append(q)
     res['missing'] = [q for q in fr if q not in fa]
